@@ -49,3 +49,27 @@ PROPS = {
         outside="step sizes beyond the bounds; second-resolution JD round trip (C04-k)",
     ),
 }
+
+
+def c07_units(tier, seed):
+    return [dict(id="C07a", harness="calendar.VH_C07_NewSolar", params={"B": 1 << 31})]
+
+
+def c20_units(tier, seed):
+    us = cube("calendar.VH_C20_XingZuo", "C20a", {}, "v_m", range(1, 13))
+    us += cube("calendar.VH_C20_Festivals", "C20b", {}, "v_m", range(1, 13))
+    return us
+
+
+def c19_units(tier, seed):
+    return [dict(id="C19a", harness="calendar.VH_C19_Civil", params={})]
+
+
+def c05_units(tier, seed):
+    return cube("calendar.VH_C05_DayTime", "C05a", {}, "v_m", range(1, 13))
+
+
+PROPS["C07"] = dict(units=c07_units, bounds_text="y in 1..9998, all other arguments in [-2^31, 2^31]")
+PROPS["C20"] = dict(units=c20_units, bounds_text="all valid (y,m,d), y in 1..9998; cubes on month")
+PROPS["C19"] = dict(units=c19_units, bounds_text="two arbitrary valid date-times, years 1..9999")
+PROPS["C05"] = dict(units=c05_units, bounds_text="all valid date-times y in 1..9998")
